@@ -141,6 +141,9 @@ class TreeScenario:
                            next_block_headers=next_block_headers if next_block_headers is not None else Opaque('nbh'),
                            tip_depths_cache=tip_depths)
 
+    def descriptor(self):
+        return ('tree', list(self.parents))
+
     def describe(self, model=None):
         d = dict(parents=self.parents)
         if model is not None:
@@ -224,3 +227,10 @@ def _bh_from(it, key, raw, args):
     if isinstance(v, Agg) and v.ty == 'BlockHash':
         return v
     raise Unsupported('BlockHash::from %r' % (v,))
+
+
+@stub('block_block_hash', 'Block::block_hash')
+def _block_hash(it, key, raw, args):
+    """ic_btc_types::Block::block_hash returns the injective id of the block model"""
+    b = deref(args[0])
+    return Ref(Cell(bh(b.fields[0].v.t)))
